@@ -275,6 +275,10 @@ pub fn check(c: &Case) -> CheckResult {
     o.class_if(mode != SRC_OVER, "non-srcover");
     o.class_if(matches!(mode, 1 | 2 | 5 | 6 | 7 | 10), "erasing-mode");
     o.class_if(!c.clips.is_empty(), "clipped");
+    {
+        let cont = |p: &PathSpec| p.ops.windows(2).any(|w| matches!(w[0], POp::Z) && matches!(w[1], POp::L(..)));
+        o.class_if(matches!(&c.draw, Op::Fill(p, ..) if cont(p)) || c.clips.iter().any(|cl| matches!(cl, Op::PushClipPath(p) if cont(p))), "polygon-continued-after-close");
+    }
     o.class_if(c.w > 256 || c.h > 256, "surface-beyond-256");
     {
         o.class_if(matches!(&c.draw, Op::Stroke(p, ..) if p.has_curves()) && xf_det(&c.xf) < 0.0 && xf_det(&c.xf).abs() > 900.0, "curved-stroke-under-a-mirroring-magnifying-transform");
@@ -349,6 +353,31 @@ pub fn strategy(ctx: &Ctx) -> BoxedStrategy<Case> {
                     }
                 }
             }
+            // continued after close: one closed polygon in six (fill or clip path) goes on after its close without a
+            // move_to, by two more vertices (off the quarter grid, so the f64 outline and the probe render judge it):
+            // the continuation starts at the polygon's first point and is closed implicitly
+            {
+                let cont = |p: &mut PathSpec, salt: usize| {
+                    if (k + salt + p.ops.len()) % 6 != 0 || !matches!(p.ops.last(), Some(POp::Z)) || p.has_curves() {
+                        return;
+                    }
+                    let pts = p.points();
+                    if pts.len() < 3 {
+                        return;
+                    }
+                    let (s0, a, b) = (pts[0], pts[1], pts[2]);
+                    p.ops.push(POp::L(2.0 * s0.0 - a.0 + 0.13, 2.0 * s0.1 - a.1 + 0.07));
+                    p.ops.push(POp::L(2.0 * s0.0 - b.0 + 0.13, 2.0 * s0.1 - b.1 - 0.21));
+                };
+                if let Op::Fill(p, ..) = &mut draw {
+                    cont(p, 3);
+                }
+                for (j, cl) in clips.iter_mut().enumerate() {
+                    if let Op::PushClipPath(p) = cl {
+                        cont(p, 5 + j);
+                    }
+                }
+            }
             // mirrored and magnified: one undashed stroke in three is described in user units 32 or 100 times smaller
             // under a transform that also mirrors x (negative determinant): the device geometry is the same
             let mut xf = xf;
@@ -392,7 +421,7 @@ pub fn property(ctx: &Ctx) -> Property {
             "mask() under a singular transform is not judged here (C11 accepts either reading)",
         ],
         parts: vec![part("one-call", 160_000, 2_000_000, move || strategy(&c), check)],
-        min_class_fraction: vec![("one-call", "erasing-mode", 0.15), ("one-call", "clipped", 0.4), ("one-call", "op:stroke", 0.05), ("one-call", "op:mask", 0.05), ("one-call", "layer-open", 0.1), ("one-call", "clips-popped-before-layer", 0.02), ("one-call", "clip-path", 0.2)],
+        min_class_fraction: vec![("one-call", "erasing-mode", 0.15), ("one-call", "polygon-continued-after-close", 0.01), ("one-call", "clipped", 0.4), ("one-call", "op:stroke", 0.05), ("one-call", "op:mask", 0.05), ("one-call", "layer-open", 0.1), ("one-call", "clips-popped-before-layer", 0.02), ("one-call", "clip-path", 0.2)],
         panic_is_violation: false,
     }
 }
